@@ -5,6 +5,7 @@ histogram.scale / add / set_nevents and graph.scale (evaluated however the resca
 reached: direct, ScaleTo, scale_to, GroupScale), and reference oracles in the workload
 for hist_to_graph, iter_bins / iter_bins_with_edges / iter_cells and the CSV writers.
 """
+import copy
 import itertools
 import math
 import random
@@ -667,6 +668,32 @@ def _conv(r, obs, lena):
                   "scale=True gave %r, histogram scale %r" % (g.scale(), h.scale()))
     else:
         obs.check(g.scale() == r["gscale"], "hist_to_graph-scale", "%r" % (g.scale(),))
+    # ---- one HistToGraph element converting two histograms with the same number of bins and
+    # the same outer edges but different inner edges: each graph has its own coordinates
+    def moved(edges_):
+        out = []
+        for a in unify_edges(edges_):
+            a = list(a)
+            for j in range(1, len(a) - 1):
+                a[j] = a[j] + (a[j + 1] - a[j]) / 3.0
+            out.append(a)
+        return out if len(out) > 1 else out[0]
+    if any(len(a) > 2 for a in E):
+        h_moved = lena.structures.histogram(moved(h.edges), bins=copy.deepcopy(h.bins))
+        el_g = lena.structures.HistToGraph(get_coordinate=r["coord"])
+        both = list(el_g.run(iter([(h, {}), (h_moved, {})]))) + \
+            list(el_g.run(iter([(h_moved, {})])))
+        alone = [lena.structures.hist_to_graph(x, get_coordinate=r["coord"])
+                 for x in (h, h_moved, h_moved)]
+        obs.count("graph_points_compared", 3 * len(ref))
+        okc = len(both) == 3 and all(
+            isinstance(b[0], lena.structures.graph) and b[0].coords == a.coords
+            for b, a in zip(both, alone))
+        obs.check(okc, "hist_to_graph-points-differ:one-element-several-binnings",
+                  "one HistToGraph element over histograms with edges %r and %r (same number of "
+                  "bins, same range): graphs %r, hist_to_graph of each gives %r"
+                  % (h.edges, h_moved.edges, [getattr(b[0], "coords", b) for b in both],
+                     [a.coords for a in alone]))
     # ---- a make_value that fails for one cell (next() on an exhausted iterator of per-bin
     # corrections raises StopIteration): an error, never a graph with fewer points than cells
     import lena.variables
